@@ -4,19 +4,19 @@ From Coq Require Import String List Bool Arith Lia.
 From Verif Require Import Base.Bytes Base.Hex Crypto.Hmac Generated.SrcConsts Model.Errors Model.Validate Model.Leakage Spec.Audit.
 From Coq Require Import Lia.
 From Verif Require Import Base.Bytes Base.Hex Crypto.Hmac Time.Calendar Time.Render Generated.SrcConsts Model.SigningKey Model.Validate.
-From Verif Require Import Proofs.StaticProofs Proofs.KeyProofs.
+From Verif Require Import Proofs.StaticC07 Proofs.KeyProofs.
 Local Open Scope string_scope.
 
 Theorem C07_source_uses_ct :
-  classify_compare src_sig_compare = CmpCtEq.
-Proof. exact StaticProofs.C07_source_uses_ct. Qed.
+  classify_compare src_sig_compare_kind = CmpCtEq.
+Proof. exact StaticC07.C07_source_uses_ct. Qed.
 Print Assumptions C07_source_uses_ct.
 
 Theorem C07_ct_eq_steps_data_independent :
   forall a b a' b',
   List.length a = List.length a' -> List.length b = List.length b' ->
   ct_eq_steps a b = ct_eq_steps a' b'.
-Proof. exact StaticProofs.C07_ct_eq_steps_data_independent. Qed.
+Proof. exact StaticC07.C07_ct_eq_steps_data_independent. Qed.
 Print Assumptions C07_ct_eq_steps_data_independent.
 
 Theorem C07_validate_steps_independent_of_signature :
@@ -25,13 +25,13 @@ Theorem C07_validate_steps_independent_of_signature :
   au_token au = au_token au' -> au_timestamp au = au_timestamp au' ->
   List.length (au_signature au) = List.length (au_signature au') ->
   validate_signature_steps H au cf pv = validate_signature_steps H au' cf pv.
-Proof. exact StaticProofs.C07_validate_steps_independent_of_signature. Qed.
+Proof. exact StaticC07.C07_validate_steps_independent_of_signature. Qed.
 Print Assumptions C07_validate_steps_independent_of_signature.
 
 Theorem C07_early_exit_refuted :
   exists a a' b,
   List.length a = List.length a' /\ snd (early_exit_leaky a b) <> snd (early_exit_leaky a' b).
-Proof. exact StaticProofs.C07_early_exit_refuted. Qed.
+Proof. exact StaticC07.C07_early_exit_refuted. Qed.
 Print Assumptions C07_early_exit_refuted.
 
 Theorem C07_ct_eq_spec :
